@@ -71,6 +71,11 @@ CHECKS['C16'] = ('runtime layout monitor: executed sizeof/alignof/address/offset
 CHECKS['C17'] = ('generated complete enumeration: every 2/3/4-letter swizzle over xyzw/rgba/stpq for source lengths 2-4 in member-function, operator (packed and aligned, reads, writes, compound and self-aliasing assignments) and gtx free-function form; every constructor argument-shape composition x cross-type x cross-qualifier; tags compared through memcpy; compile probes for accessors that must exist',
          'mon/gen_C17.py emits the swizzle word lists and constructor cases at check time; every source component holds a distinct tag and the expected result is computed from the accessor NAME or the argument list (left-to-right fill, static_cast per component). Builds: function/operator/free forms, CXX98 constructor bodies, SIMD aligned<->packed conversions; thorough adds i8/bool, AVX, clang, -O0 and ASan+UBSan units reading exactly-sized heap objects.',
          TRUST + ' The enumeration is complete for the accessor and constructor sets the generator lists (exhaustive over names, not over tag values).', 'DESIGN.md 7/C17')
+
+# supplements added after the seeded-defect rounds (kept short: the technique field names the deciding method)
+for _i in ('C01', 'C02', 'C04', 'C05', 'C10'):
+    t = CHECKS[_i]; CHECKS[_i] = (t[0] + '; aliasing supplement: every in-place / compound / out-parameter form run with the destination as operand and compared bitwise with the same call on a copy', ) + t[1:]
+t = CHECKS['C01']; CHECKS['C01'] = (t[0] + '; gtx/component_wise conversions per component against the vec1 call, reductions against the fold of the scalar operation', ) + t[1:]
 REASONS = {}
 
 checks = []
